@@ -2,6 +2,7 @@ package main
 
 import (
 	"fmt"
+	"go/token"
 	"strings"
 
 	"golang.org/x/tools/go/ssa"
@@ -42,6 +43,7 @@ var rangeExceptions = map[string]map[string]string{
 	"(*Context).Cbrt":       {"store Negative": "sign only"},
 	"(*Context).Pow":        {"store Negative": "sign only"},
 	"(*Context).add":        {"store Negative": "sign only"},
+	"(*Context).setAsNaN":     {"*": "copies a NaN operand (selected by its Form tests): nothing to round"},
 	"(*Context).rootSpecials": {"store Exponent": "exponent of a zero halved/thirded: stays within the operand's range"},
 	"(*Context).integerPower": {"*": "intermediate: integerPower's result is rounded by its callers (Exp, Pow) — C07.R1 on those"},
 }
@@ -171,7 +173,13 @@ func (w *World) dirtyReturns(f *ssa.Function, di int, reach map[*ssa.Function]bo
 					}
 					switch cn {
 					case "(*Decimal).Set", "(*Decimal).setSlow", "(*Decimal).Abs", "(*Decimal).Neg":
-						st, reason = 0, "" // whole-value copy of an operand / special / already checked local
+						// a whole-value copy fits the context only if the source is a shared special/small
+						// constant, or an operand known (by a dominating guard) to be non-finite or zero
+						if w.copySourceFits(f, y) {
+							st, reason = 0, ""
+						} else {
+							st, reason = 1, fmt.Sprintf("value copied by %s at %s (an operand or local with possibly more than Precision digits)", cn, w.instrPos(x))
+						}
 						continue
 					case "(*Decimal).SetInt64", "(*Decimal).SetFinite", "(*Decimal).setCoefficient":
 						allConst := true
@@ -225,6 +233,53 @@ func (w *World) dirtyReturns(f *ssa.Function, di int, reach map[*ssa.Function]bo
 	return problems
 }
 
+// copySourceFits: d.Set(src)-style copy whose source needs no rounding.
+func (w *World) copySourceFits(f *ssa.Function, c *ssa.Call) bool {
+	src := c.Common().Args[1]
+	p := w.newProv(f, nil)
+	allShared := true
+	for _, l := range p.roots(src) {
+		if !l.Root.shared() {
+			allShared = false
+		}
+	}
+	if allShared {
+		return true
+	}
+	sp, isParam := src.(*ssa.Parameter)
+	if !isParam {
+		return false
+	}
+	fin := w.formConsts()["Finite"]
+	for _, g := range guardsAt(c.Block()) {
+		cond := g.Cond
+		val := g.Val
+		if bo, ok := cond.(*ssa.BinOp); ok && (bo.Op == token.EQL || bo.Op == token.NEQ) {
+			// <src>.Form ==/!= K
+			if ld, ok := bo.X.(*ssa.UnOp); ok {
+				if fa, ok := ld.X.(*ssa.FieldAddr); ok && fa.X == ssa.Value(sp) && w.exprOf(f, ld.X).Name == "Form" {
+					if k, ok := bo.Y.(*ssa.Const); ok {
+						eq := (bo.Op == token.EQL) == val
+						if (eq && ci(k) != fin) || (!eq && ci(k) == fin) {
+							return true // known non-finite
+						}
+					}
+				}
+			}
+			// <src>.Sign() == 0
+			if call, ok := bo.X.(*ssa.Call); ok && w.calleeName(call) == "(*Decimal).Sign" && call.Common().Args[0] == ssa.Value(sp) {
+				if k, ok := bo.Y.(*ssa.Const); ok && ci(k) == 0 && (bo.Op == token.EQL) == val {
+					return true // a zero
+				}
+			}
+		}
+		if call, ok := cond.(*ssa.Call); ok && val && w.calleeName(call) == "(*Decimal).IsZero" && call.Common().Args[0] == ssa.Value(sp) {
+			return true
+		}
+	}
+	return false
+}
+
 var cleanMemo = map[string]int{} // 0 unknown, 1 computing, 2 clean, 3 dirty
 
 func (w *World) cleanWriter(g *ssa.Function, gi int, reach map[*ssa.Function]bool) bool {
@@ -236,6 +291,10 @@ func (w *World) cleanWriter(g *ssa.Function, gi int, reach map[*ssa.Function]boo
 		return true
 	}
 	cleanMemo[k] = 1
+	if w.shortName(g) == "(*Context).setAsNaN" {
+		cleanMemo[k] = 2 // copies a NaN operand: nothing to range-check
+		return true
+	}
 	ok := len(w.dirtyReturns(g, gi, reach, rangeExceptions[w.shortName(g)])) == 0
 	if ok {
 		cleanMemo[k] = 2
